@@ -60,6 +60,11 @@ func a5Check(r *core.Report, rule string, f *core.Func, extra ...a5Tactic) int {
 				n++
 				bc.sizeObligation(x, x.Args[idx])
 			}
+			// utf8.EncodeRune(p, r) panics when p is shorter than the encoding of r
+			if core.CalleeName(bc.info, x) == "unicode/utf8.EncodeRune" && len(x.Args) == 2 {
+				n++
+				bc.encodeObligation(x)
+			}
 			if core.CalleeName(bc.info, x) == "builtin.make" {
 				for _, a := range x.Args[1:] {
 					if _, isC := core.ConstInt(bc.info, a); isC {
@@ -745,4 +750,55 @@ func (bc *boundsCtx) getterOfOwnPackage(fn *types.Func) bool {
 		}
 	}
 	return false
+}
+
+// encodeObligation: the destination of utf8.EncodeRune holds the encoding of the rune: it is known to have at least
+// utf8.UTFMax (4) bytes - an array of that size sliced whole, `make([]byte, k)` with constant k >= 4 - or the rune is a
+// constant whose encoding fits a destination of constant length. A destination cut to the width of ANOTHER rune
+// (`b[:n]` with n the width of what was decoded) fits only if both runes have the same width, which case mappings do
+// not guarantee.
+func (bc *boundsCtx) encodeObligation(call *ast.CallExpr) {
+	construct := "destination of " + core.ExprStr(call.Fun) + " holds the rune: " + core.ExprStr(call.Args[0])
+	dst, _ := core.Resolve(bc.info, bc.f.Root().Body, call.Args[0])
+	dst = ast.Unparen(dst)
+	atLeast := int64(-1)
+	switch x := dst.(type) {
+	case *ast.CallExpr:
+		if core.CalleeName(bc.info, x) == "builtin.make" && len(x.Args) >= 2 {
+			if k, ok := core.ConstInt(bc.info, x.Args[1]); ok {
+				atLeast = k
+			}
+		}
+	case *ast.SliceExpr:
+		if x.Low == nil && x.High == nil {
+			if t := bc.info.TypeOf(x.X); t != nil {
+				if a, ok := t.Underlying().(*types.Array); ok {
+					atLeast = a.Len()
+				}
+				if pt, ok := t.Underlying().(*types.Pointer); ok {
+					if a, ok := pt.Elem().Underlying().(*types.Array); ok {
+						atLeast = a.Len()
+					}
+				}
+			}
+		}
+	}
+	need := int64(4)
+	if tv, ok := bc.info.Types[call.Args[1]]; ok && tv.Value != nil {
+		if r, isInt := core.ConstInt(bc.info, call.Args[1]); isInt {
+			switch {
+			case r < 0x80:
+				need = 1
+			case r < 0x800:
+				need = 2
+			case r < 0x10000:
+				need = 3
+			}
+		}
+	}
+	if atLeast >= need {
+		bc.r.OK(bc.rule, bc.f, construct, call.Pos(), "the destination has at least "+itoa(atLeast)+" bytes by construction")
+		return
+	}
+	bc.r.Bad(bc.rule, bc.f, construct, call.Pos(), "the destination is not known to have room for the encoded rune (utf8.UTFMax bytes): EncodeRune panics when the rune written is wider than the space cut out for it (for instance the title-case form of a letter whose lower-case form is narrower)")
 }
